@@ -4,13 +4,13 @@ PROPS['C21'] = dict(
     theorems=['C21_listing_is_sorted_permutation', 'C21_next_enumerates', 'C21_previous_is_page_before', 'C21_has_more_iff',
               'C21_offset_next_enumerates_partial', 'C21_offset_next_enumerates_refuted', 'C21_offset_previous_is_page_before', 'C21_offset_has_more_iff'],
     ties=[dict(name='TIE-C paginators', vh='pagesyn', model='pages', n=dict(quick=3000, thorough=300000), kinds=['C21']),
-          dict(name='TIE-D listings', vh='pages', model='pages', n=dict(quick=120, thorough=2500),
-               args=dict(quick=[], thorough=['-maxops', '30']), kinds=['C21'], timeout=dict(quick=600, thorough=6000))],
+          dict(name='TIE-D listings', vh='pages', model='pages', n=dict(quick=50, thorough=2500),
+               args=dict(quick=['-maxops', '32'], thorough=['-maxops', '40']), kinds=['C21'], timeout=dict(quick=600, thorough=6000))],
     rule='TIE-C: random duplicate-free key sets of 0..12 keys (small, negative, above 2^63, microsecond timestamps) in a pgsem table; arbitrary column queries '
          '(page size 0..5, both orders, pagination id / Bottom on, next to or off a key or unset, Reverse) and offset queries (offsets 0..15 and around MaxInt32/2^32): the SQL the real '
          'columnPaginator/OffsetPaginator.Paginate emits is run on pgsem and compared with Page.fetch, the real BuildCursor (cursors encoded, then decoded with UnmarshalCursor) with '
          'Page.build_cursor / opage_of, the nil-Bottom panic included; non-trivial = non-empty result with a pagination id. '
-         'TIE-D: histories of 1..14 operations (quick) generated online on the real stack over pgsem (create/revert/metadata, back-dated timestamps, 3 feature sets); for each history 37 '
+         'TIE-D: histories of 1..32 operations (quick; 1..40 thorough) generated online on the real stack over pgsem (create/revert/metadata, back-dated timestamps, 3 feature sets); for each history 37 '
          'listings x 2 orders: transactions by id and by timestamp (no filter, account=world, metadata[k1]=v1, PIT, PIT+destination=bob), logs by id (none, type, id>=3), accounts by address '
          '(none, address=users:, metadata, PIT), volumes by account with groupBy 0..3 (none, account=users:, balance[USD]>0, PIT, PIT+account filter); reference = the listing fetched with '
          'page size 10000; then every page size 1..rows+1: next cursors from the first page to the end, the previous cursor of every page, previous cursors from the last page back to '
